@@ -663,7 +663,20 @@ def replay_init_window(r):
     dests = sorted(c.valid_jumpdests())
     if got != [0x00, 0x5B] or dests != [1]:
         return {"reproduced": True, "detail": f"Contract(ByteVec(60 5b 00 5b 01).slice(2, 4)): code bytes read as {[hex(x) if isinstance(x, int) else str(x) for x in got]} (expected 0x0, 0x5b) and valid jump destinations {dests} (expected [1])", "inputs": "Contract over a chunk window with start 2"}
-    return {"reproduced": False, "detail": "a Contract built over a chunk window reads the window's bytes"}
+    # a window that stops before the end of its buffer (memory.slice(0, n) with n < 32: CREATE init code, RETURNed code, vm.etch)
+    mem = ByteVec(bytes([0x61, 0xAA, 0x5B, 0x5B, 0x00]))
+    c2 = hc.Contract(mem.slice(0, 2))  # code = 61 aa: a PUSH2 with one operand byte; the EVM pads with zeros
+    past = [c2[2], c2[3]]
+    insn = c2.decode_instruction(0)
+    operand = insn.operand
+    operand = operand.unwrap() if hasattr(operand, "unwrap") else operand
+    operand = int.from_bytes(operand, "big") if isinstance(operand, bytes) else operand
+    dests2 = sorted(c2.valid_jumpdests())
+    tail = c2.slice(0, 5).unwrap()
+    tail = tail if isinstance(tail, bytes) else None
+    if past != [0, 0] or operand != 0xAA00 or dests2 != [] or tail != bytes([0x61, 0xAA, 0, 0, 0]):
+        return {"reproduced": True, "detail": f"Contract(ByteVec(61 aa 5b 5b 00).slice(0, 2)), i.e. the 2-byte code 61 aa: bytes past the end read as {past} (EVM: 0, 0), the truncated PUSH2 pushes {operand:#x} (EVM: 0xaa00), valid jump destinations {dests2} (EVM: none), code slice [0:5] = {tail.hex() if tail is not None else tail} (EVM: 61aa000000)", "inputs": "Contract over a chunk window that stops before the end of its buffer"}
+    return {"reproduced": False, "detail": "a Contract built over a chunk window reads the window's bytes and zeros past its end"}
 
 
 def replay_jumpdest_cache(r):
